@@ -9,6 +9,7 @@ ASSUMPTIONS = ["the expected tree is the derivation tree the generator built bef
 
 
 def run(chk):
+    interaction_stream(chk)          # correspondence on the interaction corpus (tools/orch/interact.py)
     rng = random.Random(chk.seed)
     n = 1500 if chk.tier == 'quick' else 30000
     k = 2 if chk.tier == 'quick' else 3
